@@ -627,7 +627,7 @@ def replay(cfg: kaisa.Config, hist: list[dict[str, Any]], seed: int,
                          for r in range(W)}
     # case record for spec/GptDist.tla (only for executions that completed)
     out['kcase'] = None
-    if cfg.gpt.get('P', 1) == 1 and not any(ex['errors']) and all(
+    if not any(ex['errors']) and all(
             len(ex['recs'][r]) == len(hist) for r in range(W)):
         from harness import gptdist
         try:
